@@ -14,10 +14,6 @@ namespace CalicoVerif.C05
 set_option linter.unusedSectionVars false
 variable {R : Type} [DecidableEq R]
 
-/-- endpoint `ep` currently (validly) exists and lists profile `p` -/
-def referenced (st : Arc R) (p : String) : Prop :=
-  ∃ ep ids, alGet ep st.epProfiles = some ids ∧ p ∈ ids
-
 theorem isActive_iff_referenced {st : Arc R} (h : RefInv st) (p : String) :
     isActive st p = true ↔ referenced st p := by
   rw [isActive_iff]
@@ -66,6 +62,18 @@ theorem unreferenced_profile_inactive (us : List (RawUpd R)) (p : String)
     · exact absurd ((isActive_iff_referenced hr p).1 h) href
   rw [hna] at this
   simpa using this
+
+/-- **The rule scanner's table is a function of the current inputs only** (the form used for
+composition): after any history, profile `p` maps to `outOf st p` if it is referenced, and is
+absent otherwise. -/
+theorem view_eq_spec (us : List (RawUpd R)) (p : String) :
+    (referenced (runRaw (Arc.new R) us) p →
+      alGet p (view (runRaw (Arc.new R) us).out) = some (outOf (runRaw (Arc.new R) us) p)) ∧
+    (¬ referenced (runRaw (Arc.new R) us) p → alGet p (view (runRaw (Arc.new R) us).out) = none) := by
+  refine ⟨fun href => ?_, unreferenced_profile_inactive us p⟩
+  cases hk : alGet p (runRaw (Arc.new R) us).profiles with
+  | none => rw [missing_profile_denies us p href hk]; simp [outOf, hk]
+  | some r => rw [known_profile_real_rules us p r href hk]; simp [outOf, hk]
 
 /-- The stored profile table is "last valid writer wins": a valid profile update stores the rules,
 a deletion or an invalid value removes them. -/
